@@ -18,7 +18,7 @@ meta = {
     "confirmed_by_lead": conf,
     "what_was_run": ["tools/confirm_seed.sh: scratch worktree of /repo HEAD; demo/run.sh exits 0 on the clean build and non-zero "
                      "with patch.diff applied; `make unittest` (104 pass) and `make pytest` (12 OK) with the patch",
-                     "git -C /repo apply patch.diff; ./check %s; git -C /repo checkout -- ." % prop],
+                     "tools/seed_check.sh: scratch worktree of /repo HEAD outside /repo and /verif with patch.diff applied; VERIF_REPO=<that worktree> ./check %s (the registered command, rebuilding from that tree); worktree removed afterwards" % prop],
     "caught_by_check": caught,
     "check_result": note,
 }
